@@ -111,6 +111,10 @@ func Load(repo string, v Variant) (*Prog, error) {
 		if f == nil || f.Blocks == nil {
 			return
 		}
+		// the body of a generic function is analysed through its instantiations (added below), never as such
+		if tp := f.TypeParams(); tp != nil && tp.Len() > 0 && len(f.TypeArgs()) == 0 {
+			return
+		}
 		name := FuncName(f)
 		if _, dup := p.Funcs[name]; dup {
 			return
@@ -133,6 +137,20 @@ func Load(repo string, v Variant) (*Prog, error) {
 					if fn != nil && fn.Pkg == p.SPkg && fn.Synthetic == "" {
 						add(fn)
 					}
+				}
+			}
+		}
+	}
+	// instantiations of the package's generic functions, found at their call sites
+	for i := 0; i < len(p.FuncList); i++ {
+		for _, b := range p.FuncList[i].Blocks {
+			for _, in := range b.Instrs {
+				ci, ok := in.(ssa.CallInstruction)
+				if !ok {
+					continue
+				}
+				if g := ci.Common().StaticCallee(); g != nil && g.Origin() != nil && g.Origin().Pkg == p.SPkg {
+					add(g)
 				}
 			}
 		}
